@@ -229,12 +229,7 @@ func ruleEpilogue(c *Ctx, m *termModel) {
 	w := wait[0]
 	r.OK(rule, "Node.run wg.Wait", c.Pos(w.Pos()), "single WaitGroup.Wait on "+ex(w.Common().Args[0]))
 	// the loop select
-	var loopSel *ssa.Select
-	for _, in := range allInstrs(run) {
-		if s, ok := in.(*ssa.Select); ok && s.Blocking && inLoop(s.Block()) {
-			loopSel = s
-		}
-	}
+	loopSel := widestLoopSelect(run)
 	if loopSel == nil {
 		r.Fail(rule, "Node.run loop select", c.Pos(run.Pos()), "no blocking select inside a loop found in the node loop function")
 		return
@@ -550,12 +545,7 @@ func ruleChannelTeardown(c *Ctx, m *termModel, rule string) {
 		r.Fail(rule, "Channel.run workers", c.Pos(run.Pos()), "could not find the reader and writer goroutines handing their result back on a local channel (reader/writer/terminate channels)")
 		return
 	}
-	var sel *ssa.Select
-	for _, in := range allInstrs(run) {
-		if s, ok := in.(*ssa.Select); ok && s.Blocking {
-			sel = s
-		}
-	}
+	sel := awaitSelect(run)
 	if sel == nil {
 		r.Fail(rule, "Channel.run select", c.Pos(run.Pos()), "no blocking select in Channel.run")
 		return
@@ -736,6 +726,15 @@ func ruleFailedInit(c *Ctx) {
 	}
 	// closeExisting closure: a closure that ranges recv.channelProviders and calls channelProvider.close
 	isCloseExisting := func(in ssa.Instruction) bool {
+		// in line: the range over the registered providers whose body closes each of them
+		if rg, ok := in.(*ssa.Range); ok && ex(rg.X) == "recv.channelProviders" {
+			for _, cc := range callsNamed(init, "(gomavlib.channelProvider).close") {
+				if a := cc.Common().Args[0]; strings.HasPrefix(ex(a), "next(range(recv.channelProviders))") && dependsOn(a, rg) {
+					return true
+				}
+			}
+			return false
+		}
 		call, ok := in.(*ssa.Call)
 		if !ok {
 			return false
